@@ -886,12 +886,14 @@ package ctfe
 //@ requires cfg.Backends != nil ==> (forall j int :: 0 <= j && j < len(cfg.Backends.Backend) ==> cfg.Backends.Backend[j] != nil)
 //@ requires cfg.LogConfigs != nil ==> (forall j int :: 0 <= j && j < len(cfg.LogConfigs.Config) ==> cfg.LogConfigs.Config[j] != nil)
 //@ loop 1 invariant forall k int :: 0 <= k && k <= rangeindex ==> has(bm.res0, cfg.LogConfigs.Config[k].LogBackendName)
-//@ loop 1 invariant forall k int :: 0 <= k && k <= rangeindex ==> has(logIDMap, sprintfSI("%s-%d", cfg.LogConfigs.Config[k].LogBackendName, cfg.LogConfigs.Config[k].LogId)) && logIDMap[sprintfSI("%s-%d", cfg.LogConfigs.Config[k].LogBackendName, cfg.LogConfigs.Config[k].LogId)]
-//@ loop 1 invariant forall k int, m int :: 0 <= k && k < m && m <= rangeindex ==> !(cfg.LogConfigs.Config[k].LogBackendName == cfg.LogConfigs.Config[m].LogBackendName && cfg.LogConfigs.Config[k].LogId == cfg.LogConfigs.Config[m].LogId)
+//@ loop 1 invariant forall k int :: 0 <= k && k <= rangeindex ==> has(logIDMap, sprintfIS("%d-%s", cfg.LogConfigs.Config[k].LogId, cfg.LogConfigs.Config[k].LogBackendName)) && logIDMap[sprintfIS("%d-%s", cfg.LogConfigs.Config[k].LogId, cfg.LogConfigs.Config[k].LogBackendName)]
+//@ loop 1 invariant forall m int :: 0 <= m && m <= rangeindex ==> (forall k int :: 0 <= k && k < m ==> !(cfg.LogConfigs.Config[k].LogBackendName == cfg.LogConfigs.Config[m].LogBackendName && cfg.LogConfigs.Config[k].LogId == cfg.LogConfigs.Config[m].LogId))
 //@ ensures [backend-rules-first] bm.res1 != nil ==> result1 == bm.res1 && !vc.called
 //@ ensures [then-per-log-and-prefix-rules] vc.called && vc.res != nil ==> result1 == vc.res
 //@ ensures [every-log-refers-to-a-defined-backend] result1 == nil && cfg.LogConfigs != nil ==> (forall k int :: 0 <= k && k < len(cfg.LogConfigs.Config) ==> has(result0, cfg.LogConfigs.Config[k].LogBackendName))
-//@ ensures [accepted-only-with-tree-ids-unique-per-backend] result1 == nil && cfg.LogConfigs != nil ==> (forall k int, m int :: 0 <= k && k < m && m < len(cfg.LogConfigs.Config) ==> !(cfg.LogConfigs.Config[k].LogBackendName == cfg.LogConfigs.Config[m].LogBackendName && cfg.LogConfigs.Config[k].LogId == cfg.LogConfigs.Config[m].LogId))
+//@ ensures [accepted-only-with-tree-ids-unique-per-backend] result1 == nil && cfg.LogConfigs != nil ==> (forall m int :: 0 <= m && m < len(cfg.LogConfigs.Config) ==> (forall k int :: 0 <= k && k < m ==> !(cfg.LogConfigs.Config[k].LogBackendName == cfg.LogConfigs.Config[m].LogBackendName && cfg.LogConfigs.Config[k].LogId == cfg.LogConfigs.Config[m].LogId)))
+//@ loop 1 invariant forall s string :: has(logIDMap, s) ==> (exists k int :: 0 <= k && k <= rangeindex && cfg.LogConfigs.Config[k].LogId == keyID(s) && cfg.LogConfigs.Config[k].LogBackendName == keyName(s))
+//@ ensures [rejected-only-for-a-stated-reason] result1 != nil ==> bm.res1 != nil || (vc.called && vc.res != nil) || (exists k int :: 0 <= k && k < len(cfg.LogConfigs.Config) && !has(bm.res0, cfg.LogConfigs.Config[k].LogBackendName)) || (exists m int :: 0 <= m && m < len(cfg.LogConfigs.Config) && (exists k int :: 0 <= k && k < m && cfg.LogConfigs.Config[k].LogBackendName == cfg.LogConfigs.Config[m].LogBackendName && cfg.LogConfigs.Config[k].LogId == cfg.LogConfigs.Config[m].LogId))
 //@ ensures [success-returns-the-backend-map] result1 == nil ==> bm.res1 == nil && vc.called && vc.res == nil && result0 == bm.res0
 //@ at bm assert [backends-of-the-config] bm.lbs == cfg.Backends
 //@ at vc assert [logs-of-the-config] cfg.LogConfigs != nil ==> vc.cfg == cfg.LogConfigs.Config
